@@ -8,6 +8,8 @@ Modes (keys of the request object):
   negotiate  -> [{"builder": name, "combos": [[param,...],...]}] : prepare() over all ranges
   reply      -> [{"req": request struct, "resp": response struct, "v": value, "flex": bool}] :
                 what conn.py does with a reply (parse_response_header, RESPONSE_TYPE.decode)
+  golden     -> [{"builder", "ver", "present"}] : header + body bytes of the request built for
+                exactly that version (compared with the Kafka table encoding of the expected content)
   probes     -> fixed probes of the primitive codecs (outside-the-domain behaviour)
 
 Value JSON (type-directed): ints as ints, Float64 as its 64 bit pattern (int), Boolean as
@@ -386,6 +388,49 @@ def negotiate(reqs, maxv):
     return out
 
 
+def golden(reqs):
+    """[{"builder", "ver", "present"}] -> header and body bytes of the request the builder makes when the
+    broker advertises exactly that version"""
+    out = []
+    for r in reqs:
+        try:
+            b = make_builder(r["builder"], set(r["present"]))
+            st = b.prepare({b.API_KEY: (r["ver"], r["ver"])})
+            hdr = st.build_request_header(correlation_id=77, client_id="c11")
+            out.append({"cls": type(st).__name__, "hdr": hdr.encode().hex(), "body": st.encode().hex(),
+                        "flex": bool(st.FLEXIBLE_VERSION)})
+        except Exception as e:  # noqa: BLE001
+            out.append({"exc": exc_name(e) + ": " + str(e)[:120]})
+    return out
+
+
+def synthetic(lists, maxv):
+    """Request.prepare on made-up builders: for each (versions, allow_unknown) a Request subclass
+    whose _CLASSES carry exactly these API_VERSIONs, driven over every advertised range."""
+    import functools
+    import operator
+    import types as pytypes
+    out = []
+    for n, (vers, allow) in enumerate(lists):
+        classes = []
+        for j, v in enumerate(vers):
+            classes.append(type(f"Syn{n}Req_{j}", (api.RequestStruct,), {
+                "API_KEY": 900 + n, "API_VERSION": v, "RESPONSE_TYPE": api.Response, "SCHEMA": T.Schema()}))
+        union = classes[0] if len(classes) == 1 else functools.reduce(operator.or_, classes)
+        B = pytypes.new_class(f"Syn{n}", (api.Request[union],), {}, lambda ns, allow=allow, n=n: ns.update(
+            API_KEY=900 + n, ALLOW_UNKNOWN_API_VERSION=allow, build=lambda self, c: c))
+        rows = []
+        for adv in adv_list(maxv):
+            try:
+                c = B().prepare({} if adv is None else {900 + n: adv})
+                rows.append(list(B._CLASSES).index(c))
+            except Exception as e:  # noqa: BLE001
+                rows.append({"IncompatibleBrokerVersion": -1, "NotImplementedError": -2, "IndexError": -3}.get(
+                    exc_name(e), exc_name(e)))
+        out.append(rows)
+    return out
+
+
 # ----------------------------------------------------------------------------------- replies
 def reply_one(case):
     kind, rcls, _ = REG[case["req"]]
@@ -450,6 +495,10 @@ def main():
         out["negotiate"] = negotiate(req["negotiate"], req.get("maxv", 13))
     if "reply" in req:
         out["reply"] = [reply_one(c) for c in req["reply"]]
+    if "golden" in req:
+        out["golden"] = golden(req["golden"])
+    if "synthetic" in req:
+        out["synthetic"] = synthetic(req["synthetic"], req.get("maxv", 13))
     if "probes" in req:
         out["probes"] = probes()
     print(json.dumps(out))
